@@ -232,6 +232,26 @@ def check_query(c, m, r, dres):
     return True, "on=off"
 
 
+def check_spy(r):
+    """the same statement over a provider that implements scan_knn (KnnSpy: drops NULL vectors, reverses ties).
+    Exact mode: scan_knn must not be called and the answer is the memory provider's exact answer.
+    Indexed mode: the provider may be used, but only through a fired rewrite and with use_index set."""
+    on, se, si = answer(r["on"]), answer(r["spy_exact"]), answer(r["spy_idx"])
+    if se[0] == "panic" or si[0] == "panic":
+        return False, "panic over the k-NN capable provider"
+    if r["spy_exact_calls"] != 0:
+        return False, f"exact mode called the provider's scan_knn {r['spy_exact_calls']} time(s)"
+    if se[0] != on[0] or (se[0] == "rows" and (se[1] != on[1] or se[2] != on[2])):
+        return False, f"exact mode over a k-NN capable provider answers {se[1:] if se[0] == 'rows' else se[0]}, the literal sort+limit gives {on[1:] if on[0] == 'rows' else on[0]}"
+    if r["spy_idx_calls"] and not r["fired"]:
+        return False, "indexed mode consulted the provider although the rewrite did not fire"
+    if not all(r["spy_idx_use_index"]):
+        return False, "indexed mode called scan_knn with use_index = false"
+    if not r["spy_idx_calls"] and (si[0] != on[0] or (si[0] == "rows" and si[2] != on[2])):
+        return False, "indexed mode did not consult the provider but its answer differs from the exact one"
+    return True, ""
+
+
 def evaluate(ctx, cases):
     outs = vlib.run_harness("c43", cases)
     items, terms = [], []
@@ -261,10 +281,16 @@ def run(ctx):
         if r is None:
             eq.append(False); ok.append(False); impl.append(o); continue
         good, why = check_query(c, m, r, o["results"][m["di"]]["on"])
+        if good:
+            g2, w2 = check_spy(r)
+            if not g2:
+                good, why = False, w2
         f = r["fired"]
         e = bool(v[0]) and bool(o.get("rule_list_ok")) and bool(o.get("default_is_exact")) and \
             (f is None or subtree_in(f["fallback"], r["pre"]))
-        eq.append(e); ok.append(good); impl.append({"fired": f, "on": r["on"], "off": r["off"], "why": why})
+        eq.append(e); ok.append(good)
+        impl.append({"fired": f, "on": r["on"], "off": r["off"], "why": why, "spy_exact": r["spy_exact"], "spy_exact_calls": r["spy_exact_calls"],
+                     "spy_idx_calls": r["spy_idx_calls"], "spy_differs": bool(r["spy_idx_calls"]) and r["spy_idx"] != r["on"]})
         stats["fired" if f else "declined"] += 1
         for k in ("spec", "on=off", "all-err"):
             if why.startswith(k):
@@ -278,7 +304,10 @@ def run(ctx):
                                      "with_null_vectors": sum(1 for c in cases if any(r[3] is None for r in c["rows"])),
                                      "with_duplicate_vectors": sum(1 for c in cases if len({repr(r[3]) for r in c["rows"]}) < len(c["rows"])),
                                      "shapes": shapes, **stats,
-                                     "modes": "rule on (Exact), rule on (Indexed, provider without index), rule list without VectorSearchPushdown"}
+                                     "modes": "rule on (Exact), rule on (Indexed, provider without index), rule list without VectorSearchPushdown, "
+                                              "Exact and Indexed over a provider implementing scan_knn (drops NULL vectors, reverses ties)",
+                                     "knn_provider_consulted_in_indexed_mode": sum(1 for i in impl if isinstance(i, dict) and i.get("spy_idx_calls")),
+                                     "knn_provider_answer_differs_from_exact": sum(1 for i in impl if isinstance(i, dict) and i.get("spy_differs"))}
     for q, i in list(zip(qcases, impl))[:3]:
         ctx.sample({"input": {"sql": q["queries"][0], "rows": q["rows"]}, "impl_output": i})
     ctx.judge(qcases, eq, ok, impl_outs=impl)
@@ -295,8 +324,9 @@ def run(ctx):
                      "the harness renders the real LogicalPlan the rule sees (rule list minus VectorSearchPushdown, checked "
                      "to reproduce the default optimizer's plan when the rule is appended) into the model's plan AST",
                      "multi-input operators (joins) are outside the model AST; generated queries are single-table",
-                     "a real index (Lance) is not exercised: Indexed mode is run over the memory provider, whose scan_knn "
-                     "answers None"])
+                     "a real index (Lance) is not exercised: Indexed mode is run over the memory provider, whose scan_knn answers "
+                     "None, and over the harness's KnnSpy provider, whose scan_knn answers a deliberately different top-k and counts "
+                     "its calls; what an Indexed-mode answer must be is outside C43"])
 
 
 def replay(ctx, obj):
@@ -305,6 +335,8 @@ def replay(ctx, obj):
     rc = 0
     for (ci, m, r), v in zip(items, vals):
         good, why = check_query(c, m, r, outs[0]["results"][m["di"]]["on"]) if r else (False, "harness error")
+        if good:
+            good, why = check_spy(r)
         print("sql:", m["sql"]); print("fired:", r and r["fired"]); print("fired_eqb:", v[0], "answers_ok:", good, why)
         if not (good and v[0]):
             rc = 1
